@@ -520,6 +520,8 @@ func (e *EtcdOp) getCollectionNameByID(ctx context.Context, collectionID int64) 
 		if len(resp.Kvs) == 0 {
 			continue
 		}
+		// found the database of the collection, the left databases should not overwrite the result
+		break
 	}
 	if resp == nil {
 		log.Warn("there is no database")
